@@ -12,11 +12,11 @@ import common
 
 SN = dict(psinorm_core=0.8, psinorm_sol=1.2, psinorm_pf=0.9, ny_inner_divertor=4, ny_sol=8, ny_outer_divertor=4,
           nx_core=4, nx_sol=4, psi_spacing_separatrix_multiplier=0.5, target_all_poloidal_spacing_length=0.3,
-          xpoint_poloidal_spacing_length=0.05, y_boundary_guards=2, number_of_processors=1, finecontour_Nfine=100, refine_timeout=600.0)
+          xpoint_poloidal_spacing_length=0.05, y_boundary_guards=2, number_of_processors=1, finecontour_Nfine=100, refine_timeout=60.0)
 DN = dict(psinorm_core=0.8, psinorm_sol=1.2, psinorm_pf=0.9, ny_inner_lower_divertor=4, ny_inner_upper_divertor=4,
           ny_inner_sol=4, ny_outer_sol=4, ny_outer_lower_divertor=4, ny_outer_upper_divertor=4, nx_core=4, nx_inter_sep=1,
           nx_sol=4, psi_spacing_separatrix_multiplier=0.5, target_all_poloidal_spacing_length=0.3,
-          xpoint_poloidal_spacing_length=0.05, y_boundary_guards=2, number_of_processors=1, finecontour_Nfine=100, refine_timeout=600.0)
+          xpoint_poloidal_spacing_length=0.05, y_boundary_guards=2, number_of_processors=1, finecontour_Nfine=100, refine_timeout=60.0)
 CDN = {k: v for k, v in DN.items() if k != "nx_inter_sep"}
 NONORTH = dict(orthogonal=False, y_boundary_guards=0)
 
@@ -124,7 +124,7 @@ def steep_cdn_cfg():
     o = dict(orthogonal=False, number_of_processors=1, psinorm_core=0.8, psinorm_sol=1.2, psinorm_pf=0.9, ny_inner_lower_divertor=4, ny_inner_upper_divertor=4, ny_inner_sol=6,
              ny_outer_sol=6, ny_outer_lower_divertor=8, ny_outer_upper_divertor=8, nx_core=2, nx_sol=2, psi_spacing_separatrix_multiplier=0.5, target_all_poloidal_spacing_length=0.3,
              target_outer_lower_poloidal_spacing_length=0.03, target_outer_upper_poloidal_spacing_length=0.03, xpoint_poloidal_spacing_length=0.05, finecontour_Nfine=200,
-             y_boundary_guards=1, refine_timeout=600.0)
+             y_boundary_guards=1, refine_timeout=60.0)
     return tok("cdn_nonorth_steep", "cdn", o, wall="steep2", must_build=True)
 
 
